@@ -402,16 +402,22 @@ pub fn build_and_log(
     // one random-file scenario in seven of the reader-side families reads a file that the 0.4.7
     // writer produced for the same content (the corner files keep the writer under test)
     let mut writer = "current";
+    let mut logged_codec = cfg.codec;
     let idx = crate::files::SCN_IDX.with(|c| c.get());
     if crate::files::ALLOW_FOREIGN.with(|c| c.get()) && idx % 7 == 5 && idx as usize >= corner_count() && outcome.bytes.is_some() {
         if let Some(b) = write_file_foreign(cfg, entries) {
+            // the codec the file declares is the old writer's business (its `Snappy` is not the id
+            // this configuration names): what the reader must report is what the trailer says
+            if b.len() >= 22 {
+                logged_codec = b[b.len() - 22 + 8];
+            }
             outcome.bytes = Some(b);
             writer = "0.4.7";
         }
     }
     let keys: Vec<i64> = entries.iter().map(|(k, _)| dict.id(k)).collect();
     out.ev(json!({"ev": "Written", "kind": "list", "keys": keys, "n": keys.len(), "base": 0, "step": 1,
-        "codec": cfg.codec, "levels": cfg.levels, "ver": ver, "cfg": cfg.json(), "writer": writer,
+        "codec": logged_codec, "levels": cfg.levels, "ver": ver, "cfg": cfg.json(), "writer": writer,
         "ins": outcome.ins, "fin": outcome.fin, "detail": outcome.detail,
         "maxblk": outcome.bytes.as_ref().map(|b| crate::decode::max_stored(b, 22)).unwrap_or(0),
         "size": outcome.bytes.as_ref().map(|b| b.len()).unwrap_or(0)}));
